@@ -46,7 +46,7 @@ T = {
  "C09": ("Theorems C09_request_suffix / C09_request_local / C09_response_suffix / C09_request_pipeline / C09_response_pipeline: a Complete answer is "
          "unchanged by any appended bytes, depends only on the consumed bytes, and a concatenation of messages is split by fresh parsers at the "
          "message lengths (responses: by the boundary). Corollaries of the resumption and locality lemmas, induction on the number of messages.", ""),
- "C10": ("Theorems C10_request_roundtrip / C10_response_roundtrip / C10_generated_is_grammatical: for every well-formed value (WfRequest / WfResponse, pinned in the file; methods: any UTF-8 text without SP and CRLF, in particular every graphic-ASCII token, C10_graphic_methods_are_legal) the generated bytes are accepted as one message consuming every byte, the parsed value equals the original, and regenerating gives the same bytes; proved from grammar completeness, parse_dec (show_dec n) = n, trimming lemmas and UTF-8 validity across concatenation. C10_folding_generator_agrees: rhymessage's folding generator (fold_header, modelled in Model/Headers.v hdr_generate_full and compared with the crate on every run) emits exactly those bytes whenever the lines fit; C10_fold_piece_within_limit.",
+ "C10": ("Theorems C10_request_roundtrip / C10_response_roundtrip / C10_generated_is_grammatical: for every well-formed value (WfRequest / WfResponse, pinned in the file; methods: any UTF-8 text without SP and CRLF, in particular every graphic-ASCII token, C10_graphic_methods_are_legal) the generated bytes are accepted as one message consuming every byte, the parsed value equals the original, and regenerating gives the same bytes; proved from grammar completeness, parse_dec (show_dec n) = n, trimming lemmas and UTF-8 validity across concatenation. C10_folding_generator_agrees: rhymessage's folding generator (fold_header, modelled in Model/Headers.v hdr_generate_full and compared with the crate on every run) emits exactly those bytes whenever the lines fit; C10_fold_piece_within_limit, C10_fold_fuel_irrelevant. C10_request_roundtrip_with_folding: the round trip WITHOUT the 'lines fit the limit' clause for requests whose header values are graphic characters separated by single spaces -- generate() folds, the parser unfolds, the parsed value is the original, whatever the length of the header lines.",
          "Relative to the per-target premise uri_ok (rhymuri: Display then parse is the identity, displayed text is graphic ASCII), checked for every generated target by the run; K2 is where it fails. Header folding on generate is not modelled (values needing folding are outside the statement)."),
  "C11": ("Theorems C11_every_accepted_response_reserialises + C11_accepted_response_wellformed: every response the parser accepts (Content-Length, chunked or body-less) is a well-formed value -- legal names, printable trimmed values, for chunked input the C12 rewriting with a single Content-Length equal to the de-chunked body (C11_dechunked_headers_wellformed) -- and generating from it gives a message that parses to the same value with the whole output consumed. C11_request_reserialise: the same for every accepted request (any method the parser stores: UTF-8 without SP/CRLF), given a uri_ok target and re-serialised lines within the limits. That last premise cannot be dropped: C11_unrestricted_request_reserialise_refuted exhibits an accepted request (a 1000-byte header line without whitespace) on which the folding generator fails -- known finding K6, reported as KNOWN-FINDING with two witnesses replayed on the crate every run (generate() -> HeaderLineCouldNotBeFolded; a fold at a tab read back as a space). What does survive folding is proved too: C11_folded_headers_parse_back / C11_folded_block_is_grammatical -- headers whose values are graphic characters separated by single spaces are re-serialised by the folding generator, whatever their length and however many continuation lines it takes, into a header block of the grammar that parses back to exactly the same list; K6 is thereby confined to values that cannot be split and to tabs / runs of white space at a split point.",
          "uri_ok is the premise about rhymuri (Display then parse is the identity, displayed text graphic ASCII), checked per case by the run; known findings K2, K3 are where it fails. Bodies longer than usize::MAX are excluded by an explicit premise."),
